@@ -356,6 +356,32 @@ fn run(ctx: &mut Ctx) {
             }
         }
     }
+    // 2b. three levels: a delicate leaf under every composite under every composite, in every pair of slots
+    let hard: Vec<Expr> = vec![
+        Expr::Value(Value::Int(-5)), Expr::Value(Value::Float(-2.5)), Expr::Value(Value::Float(1e300)), Expr::Value(Value::Float(1e-7)), Expr::Value(Value::Decimal(Decimal::new(-5, 1))),
+        Expr::Value(Value::String("ends with backslash\\".into())), Expr::Value(Value::String("q\"".into())), Expr::Reference("f".into()), Expr::Symbol("d".into()), Expr::Map([("k".to_string(), Expr::Reference("r".into()))].into_iter().collect()),
+        Expr::Vec(vec![]), Expr::Value(Value::None), Expr::Value(Value::Bool(true)),
+    ];
+    let stride = ctx.tier.of(8, 1);
+    let mut counter = 0usize;
+    for outer in &comps {
+        for oslot in 0..arity(outer) {
+            for mid in &comps {
+                for mslot in 0..arity(mid) {
+                    for l in &hard {
+                        counter += 1;
+                        if !ctx.mine() || counter % stride != 0 {
+                            continue;
+                        }
+                        let mcs: Vec<Expr> = (0..arity(mid)).map(|i| if i == mslot { l.clone() } else { Expr::Reference(format!("x{i}")) }).collect();
+                        let m = mk(mid, mcs);
+                        let ocs: Vec<Expr> = (0..arity(outer)).map(|i| if i == oslot { m.clone() } else { Expr::Reference(format!("r{i}")) }).collect();
+                        judge(ctx, &mk(outer, ocs), "three-levels", &mut rng);
+                    }
+                }
+            }
+        }
+    }
     // 3. random trees to depth 6 over the boundary pool
     let pool = pool();
     let n = ctx.tier.of(20_000, 200_000);
